@@ -39,6 +39,7 @@ def apply_commands(base, file_cmds):
     notes = [(what, path)] for things git would reject or that are suspicious (rename of a missing path...)."""
     tree = dict(base)
     notes = []
+    occupied = set()  # paths (re)created by an earlier command of this commit
     for fc in file_cmds:
         name = fc.name
         if name == b"filemodify":
@@ -54,6 +55,7 @@ def apply_commands(base, file_cmds):
                 continue
             if path in tree and tree[path][0] == "directory":
                 _remove(tree, path)  # git: the directory is replaced by the file
+            occupied.add(path)
             if stat.S_ISLNK(mode):
                 tree[path] = ("symlink", (fc.data or b"").decode("utf-8"), False)
             else:
@@ -64,7 +66,12 @@ def apply_commands(base, file_cmds):
             path = fc.path.decode("utf-8")
             if path not in tree:
                 notes.append(("delete-of-missing-path", path))
+            elif path in occupied:
+                # the commit itself has just put something there (a rename onto the path, a new file): deleting it again
+                # cannot be what the revision means
+                notes.append(("delete-of-path-reoccupied-in-same-commit", path))
             _remove(tree, path)
+            occupied.discard(path)
         elif name in (b"filerename", b"filecopy"):
             src = (fc.old_path if name == b"filerename" else fc.src_path).decode("utf-8")
             dst = (fc.new_path if name == b"filerename" else fc.dest_path).decode("utf-8")
@@ -84,6 +91,7 @@ def apply_commands(base, file_cmds):
             _make_parents(tree, dst, notes)
             for p, v in moved.items():
                 tree[dst + p[len(src):]] = v
+            occupied.add(dst)
         elif name == b"filedeleteall":
             tree.clear()
         else:
